@@ -9,6 +9,7 @@ import time
 from .. import build as B
 from .. import engine as E
 from .. import gen as G
+from .. import hard as H
 from ..oracle import M, P10, float_to_decimal, f64_bits, f32_bits
 from . import common as C
 
@@ -140,6 +141,21 @@ def gen(rng, tier, shard, batch):
         if _CON is None:
             _CON = constructed(random.Random(20260113))
         reqs += _CON[shard::E.NCPU]
+    # near-ties computed with the modular-interval solver (vf/hard.py): for every binary exponent the significands m for
+    # which m * 2^e * 10^18 is about as close to k + 1/2 as any float of that exponent gets (the f64 analogue of the
+    # exhaustive f32 near-tie scan), their neighbours, both signs; a fresh random start per batch
+    for op, mant, expb in (("fromf64", 53, 11), ("fromf32", 24, 8)):
+        bias = (1 << (expb - 1)) - 1
+        for e2 in range(-61 - mant, -18):
+            for dens in (8, 1 << 12):
+                for m in H.float_to_dec_hard(rng, mant, e2, 18, dens):
+                    be = e2 + bias + (mant - 1)
+                    if not 0 < be < (1 << expb) - 1:
+                        continue
+                    b = fbits(rng.randrange(2), be, m - (1 << (mant - 1)), mant, expb)
+                    reqs.append("%s %d" % (op, b))
+                    if rng.random() < 0.25:
+                        reqs.append("%s %d" % (op, b + rng.choice((1, -1))))
     for _ in range(N_RANDOM[tier]):
         if rng.random() < 0.5:
             op, mant, expb = "fromf64", 53, 11
